@@ -104,6 +104,8 @@ func TestVerifListeners(t *testing.T) {
 	iobroker.VerifHook = nil
 	var plans [][]int /* shells without a listener before each of two listening windows */
 	json.Unmarshal([]byte(os.Getenv("VERIF_LISTEN")), &plans)
+	var caps [][]int /* capacity of each window's listener channel; a listener with a small channel reads only after its shell has gone */
+	json.Unmarshal([]byte(os.Getenv("VERIF_LISTEN_CAPS")), &caps)
 	endings := []string{"eof", "cancel-in", "cancel-out"}
 	var res []map[string]any
 	for pi, plan := range plans {
@@ -119,7 +121,7 @@ func TestVerifListeners(t *testing.T) {
 		r := map[string]any{"plan": plan, "windows": []any{}, "problem": ""}
 		n := 0
 	windows:
-		for _, unheard := range plan {
+		for wi, unheard := range plan {
 			for k := 0; k < unheard; k++ {
 				if p := vlShell(b, och, fmt.Sprintf("s%d", n), endings[n%3]); "" != p {
 					r["problem"] = fmt.Sprintf("shell %d (no listener registered): %s", n, p)
@@ -128,13 +130,20 @@ func TestVerifListeners(t *testing.T) {
 				n++
 			}
 			time.Sleep(30 * time.Millisecond)
-			evl := make(chan iobroker.Event, iobroker.EVChanLen)
+			lcap := iobroker.EVChanLen
+			if pi < len(caps) && wi < len(caps[pi]) {
+				lcap = caps[pi][wi]
+			}
+			evl := make(chan iobroker.Event, lcap)
 			b.AddEventListener(evl)
 			if p := vlShell(b, och, fmt.Sprintf("s%d", n), endings[(n+pi)%3]); "" != p {
 				r["problem"] = fmt.Sprintf("shell %d (listener registered): %s", n, p)
 				break windows
 			}
 			n++
+			if lcap < 8 { /* a slow listener: it looks at its channel only well after the shell has gone */
+				time.Sleep(150 * time.Millisecond)
+			}
 			r["windows"] = append(r["windows"].([]any), vlCollect(evl))
 			b.RemoveEventListener(evl)
 		}
